@@ -67,6 +67,7 @@ type progState struct {
 	AstDiff       string
 	Hygiene       string
 	Shared        string
+	TagsRun       string // package run with an extra -tags value: 1 same bytes, 0 different, nooutput
 	Deterministic bool
 	SourceMapSame string
 	Deps          string // GD line payload (flow programs whose generated file parses)
@@ -348,8 +349,8 @@ func writeOutput(c *config, states []*progState, elapsed time.Duration) error {
 			if p.ModSub {
 				mc = fmt.Sprint(b2i(st.ModCompiles))
 			}
-			emit("G %d parses=%d typechecks=%d directives_left=%d astdiff=%s deterministic=%d sourcemap_same=%s modifier_compiles=%s hygiene=%s shared=%s",
-				p.PID, b2i(st.Parses), b2i(st.Typechecks), st.DirLeft, st.AstDiff, b2i(st.Deterministic), st.SourceMapSame, mc, orNA(st.Hygiene), orNA(st.Shared))
+			emit("G %d parses=%d typechecks=%d directives_left=%d astdiff=%s deterministic=%d sourcemap_same=%s modifier_compiles=%s hygiene=%s shared=%s tagsrun=%s",
+				p.PID, b2i(st.Parses), b2i(st.Typechecks), st.DirLeft, st.AstDiff, b2i(st.Deterministic), st.SourceMapSame, mc, orNA(st.Hygiene), orNA(st.Shared), orNA(st.TagsRun))
 			if p.Kind == "flow" && st.Parses {
 				emit("GD %d %s", p.PID, st.Deps)
 			}
